@@ -102,3 +102,37 @@ func VerifParse(in []VerifToken) ([]VerifLine, error) {
 	}
 	return out, err
 }
+
+// VerifQueueOps drives a process queue of the given size through a sequence of operations
+// (op >= 0: Push(op); op == -1: Pop) and returns, after every operation, the popped value
+// (or -1; -2 for a pop from an empty queue), Len(), Values() and Next() (-1 on error).
+func VerifQueueOps(size int, ops []int) (popped []int, lens []int, values [][]int, nexts []int) {
+	q := newProcessQueue(Address(size))
+	for _, op := range ops {
+		p := -1
+		if op >= 0 {
+			q.Push(Address(op))
+		} else {
+			v, err := q.Pop()
+			if err != nil {
+				p = -2
+			} else {
+				p = int(v)
+			}
+		}
+		popped = append(popped, p)
+		lens = append(lens, int(q.Len()))
+		vals := []int{}
+		for _, v := range q.Values() {
+			vals = append(vals, int(v))
+		}
+		values = append(values, vals)
+		n, err := q.Next()
+		if err != nil {
+			nexts = append(nexts, -1)
+		} else {
+			nexts = append(nexts, int(n))
+		}
+	}
+	return
+}
